@@ -28,11 +28,12 @@ def shard_seed(seed, pid, sub, shard):
 
 
 def load_known():
+    out = []
     path = os.path.join(VERIF, "known_findings.json")
-    if not os.path.exists(path):
-        return []
-    with open(path) as f:
-        return json.load(f)["findings"]
+    if os.path.exists(path):
+        with open(path) as f:
+            out.extend(json.load(f)["findings"])
+    return out
 
 
 def load_module(pid):
